@@ -34,17 +34,19 @@ FOLDS = {
  "C04": "the layout calculators, _make_array, len(T), the interpreted structure reader / writer, positions and consumed size of the compiled reader",
  "C05": "the scalar codec families (five byte-order characters), LEB128, char / wchar incl. their array writers",
  "C06": "the bit buffer, the layout calculator, the interpreted structure reader / writer, the compiled reader on sequences with bit-fields",
- "C07": "_make_array, BaseArray._read / _write, the generic _read_array, the array slots of the scalar codecs, the compiled reader on sequences with arrays",
+ "C07": "_make_array, BaseArray._read / _write, the generic _read_array and _write_array / _write_0 (elements written on the caller's stream at absolute positions), the array slots of the scalar codecs, the LEB128 null-terminated reader, the text arrays, the expression evaluator, the token parser, the compiled reader on sequences with arrays",
  "C08": "the reading slots of the scalar codecs, StructureMetaType.__call__, MetaType.__call__, BaseArray, truncated images in the compiled reader",
  "C09": "_is_eof / the generic _read_array, LEB128, the call forms (MetaType / Structure / Union __call__), the input predicates, Pointer.dereference, the interpreted structure reader / writer, the layout calculator",
- "C10": "Expression._mark_unary_minus (bounded-exhaustive over token lists), a computed precedence table, Parser._array_count, _make_array, the token parser",
- "C11": "the union layout calculator, UnionMetaType.__call__, the union writer, StructureMetaType.__call__",
- "C12": "the enum / flag numbering statements, Enum.__eq__ / Flag.__eq__, the bit buffer reader, the compiled reader on sequences with enums",
+ "C10": "the expression evaluator (Expression(cs, text).evaluate(context) on 745 texts against an independent C-precedence evaluator, plus evaluations in sequence on one object), Expression._mark_unary_minus (bounded-exhaustive over token lists), Parser._array_count, _make_array, the token parser",
+ "C11": "the union life cycle (read, assign directly and through nested structures, rebuild, re-read, proxify, dump - interpreted together on model unions against reference buffers), the union layout calculator, UnionMetaType.__call__, the union writer, the proxies, the rebuild, the accessor properties of anonymous members, the interpreted structure reader / writer, the token parser, StructureMetaType.__call__",
+ "C12": "the enum / flag numbering statements (token parser fold), Enum.__eq__ / Flag.__eq__, the bit buffer reader and writer, the expression evaluator, the interpreted structure reader / writer, cstruct.__getattr__, the compiled reader on sequences with enums",
  "C13": "the token parser (TokenParser.parse interpreted against a model cstruct object: reference tables, comment / spacing / order variants, refused texts), cstruct.resolve over alias tables, cstruct.__getattr__, the comment replacer, add_type, Parser._array_count",
- "C16": "Pointer.dereference, the null-terminated readers of char / wchar, the default-pointer expression, the compiled reader on sequences with pointers",
- "C17": "the generated-method patchers for every field count (bytecode layout), one default object per field, MetaType.__call__, the bit buffer writer, BaseArray",
- "C18": "StructureMetaType.__call__, _update_fields, add_field",
- "C20": "the stub generator (generate_cstruct_stub interpreted on a model cstruct object, the text parsed and compared with the model), cstruct.__getattr__, cstruct.resolve",
+ "C16": "Pointer.dereference, Pointer.__new__ (addresses outside the pointer's width are kept), the null-terminated readers of char / wchar, the default-pointer expression, the compiled reader on sequences with pointers",
+ "C17": "the generated-method patchers for every field count (bytecode layout), one default object per field, the accessor properties of anonymous members, the union life cycle and proxies, the interpreted structure reader / writer, MetaType.__call__, the bit buffer writer, BaseArray",
+ "C18": "StructureMetaType.__call__, _update_fields (run against a class that carries poisoned previous state; the accessor properties it installs are called), add_field, commit, the token parser (pre-registration, compile requests, #[nocompile])",
+ "C20": "the stub generator (generate_cstruct_stub interpreted on a model cstruct object, the text parsed and compared with the model), cstruct.__getattr__, cstruct.resolve, add_type (order of the typedef table), the token parser",
+ "C14": "MetaType.__call__, the union life cycle (two values of one union type share no member object)",
+ "C15": "the union life cycle (a second parse leaves the first value as it was)",
 }
 
 NA = {
